@@ -150,7 +150,9 @@ func (P *Program) expandAuto(c *Contract, fn *ssa.Function) error {
 		// "the key of the attribute being printed has been written" (C05): set at the key writer's call
 		"ghost.ioKeyed",
 		// 1 while a colour switched on by echoColor* has not been reset yet (C06)
-		"ghost.ioColor"} {
+		"ghost.ioColor",
+		// the dotted key strings.DotPrefix made for the attribute being printed (C05)
+		"ghost.ioDot"} {
 		if hasStr(c.NoKeeps, d) {
 			continue
 		}
